@@ -259,6 +259,26 @@ func dictionaryProtocol(r *RunCtx) {
 	if w.Cfg.Many {
 		n += 40
 	}
+	// iterators that have reported the end stay with their caller: whatever
+	// happens afterwards (new iterators, of any field or segment), a further Next
+	// on them still reports the end
+	type doneIter struct {
+		itr   segment.DictionaryIterator
+		where string
+	}
+	var finished []doneIter
+	checkFinished := func(when string) {
+		for _, d := range finished {
+			e, err := d.itr.Next()
+			if err != nil || e != nil {
+				t := "<nil>"
+				if e != nil {
+					t = e.Term
+				}
+				r.fail("C08.terms", "DictionaryIterator.Next", "an exhausted iterator (%s) asked again %s returned entry %q, err %v instead of the end", d.where, when, t, err)
+			}
+		}
+	}
 	for it := 0; it < n; it++ {
 		h := w.pickSeg("dict.seg")
 		field := w.pickField(h, "dict.field")
@@ -304,7 +324,17 @@ func dictionaryProtocol(r *RunCtx) {
 			r.count("probe.dict.two-iterators-of-one-dictionary")
 		}
 		var got []CTerm
+		recheckAt := -1
+		if len(finished) > 0 && c.Bool("dict.recheck-exhausted-mid") {
+			recheckAt = c.Choose(3, "dict.recheck-at")
+			r.count("probe.dict.exhausted-iterator-asked-again")
+		}
 		for {
+			if len(got) == recheckAt {
+				// ... also while a younger iterator is in the middle of its walk
+				checkFinished("while a younger iterator is in use")
+				recheckAt = -1
+			}
 			if itr2 != nil {
 				e2, err := itr2.Next()
 				if err != nil {
@@ -381,6 +411,13 @@ func dictionaryProtocol(r *RunCtx) {
 		}
 		if ok != (findTerm(ref, probe) != nil) {
 			r.fail("C08.contains", "Contains", "%s field %q: Contains(%q)=%v but match-all iteration says %v", h.Name, field, probe, ok, !ok)
+		}
+		if h.Seg != nil && len(finished) < 6 {
+			finished = append(finished, doneIter{itr, where})
+		}
+		if it+1 < n && c.Bool("dict.recheck-exhausted") {
+			checkFinished("after " + where)
+			r.count("probe.dict.exhausted-iterator-asked-again")
 		}
 		r.ev("dict %s -> %d terms", where, len(got))
 		r.count("op.dictiter")
